@@ -1,5 +1,794 @@
 /-
-C12 — property theorems (stub; nothing proved yet).
+C12 — driving force, phase boundary and critical radius agree with each other.
+
+Theorems about the definitions REGENERATED from the kawin sources (`KawinV.Gen.C12`, file Gen/C12GT.lean,
+rewritten from /repo by tools/corr/C12.py on every run: Gibbs–Thomson contribution, volumetric driving force,
+critical-radius proposal, the multicomponent growth law and what `_singleGrowthMulti` hands to it, the binary
+supersaturation growth law) and about the hand model `KawinV.IC` (Model/ICScan.lean: sentinel scan of
+`_interfacialCompositionFromEq`, `RdrivingForceIndex`, prefix fill, the `Rmin` clamp).
+
+`α` is any linearly ordered field with an arbitrary interpretation of the transcendental atoms.
+What is NOT proved here (thermodynamic facts about pycalphad + the database) enters only as explicit hypotheses
+(`DF (xα g) = g + δ`, monotonicity) and is monitored by the oracle of tools/corr/C12.py.
 -/
+import KawinV.Model.ICScan
+import Mathlib.Tactic.Ring
+import Mathlib.Tactic.Linarith
+import Mathlib.Tactic.FieldSimp
+import Mathlib.Tactic.NormNum
+import Mathlib.Tactic.Positivity
+import Mathlib.Algebra.Order.Field.Basic
+
+set_option linter.unusedSectionVars false
+set_option linter.unusedVariables false
+set_option linter.unusedSimpArgs false
+set_option linter.style.longLine false
+
 namespace KawinV.Props.C12
+open KawinV KawinV.Gen.C12 KawinV.IC
+
+section field
+variable {α : Type} [Field α] [LinearOrder α] [IsStrictOrderedRing α] [Trans α]
+
+/-! ### sign helpers -/
+
+theorem pos_mul_pos_iff {c t : α} (hc : 0 < c) : 0 < c * t ↔ 0 < t :=
+  ⟨fun h => by
+      by_contra h'
+      have := mul_nonpos_of_nonneg_of_nonpos hc.le (not_lt.mp h')
+      exact absurd h (not_lt.mpr this),
+   fun h => mul_pos hc h⟩
+
+theorem pos_mul_neg_iff {c t : α} (hc : 0 < c) : c * t < 0 ↔ t < 0 :=
+  ⟨fun h => by
+      by_contra h'
+      have := mul_nonneg hc.le (not_lt.mp h')
+      exact absurd h (not_lt.mpr this),
+   fun h => mul_neg_of_pos_of_neg hc h⟩
+
+theorem pos_mul_eq_zero_iff {c t : α} (hc : 0 < c) : c * t = 0 ↔ t = 0 := by
+  simp [hc.ne']
+
+/-! ### Gibbs–Thomson at the critical radius -/
+
+/-- the traced Gibbs–Thomson contribution is `Vm·(E + 2fγ/R)` -/
+theorem gExtra_closed (Vm E f γ R : α) : gExtra Vm E f γ R = Vm * (E + 2 * f * γ / R) := by
+  simp only [gExtra]
+
+/-- the traced volumetric driving force is `dG/Vm − E` and the traced proposal is `2fγ/dGv` -/
+theorem volDG_closed (dG Vm E : α) : volDG dG Vm E = dG / Vm - E := by
+  simp only [volDG]
+
+theorem rcritProposal_closed (f γ dGv : α) : rcritProposal f γ dGv = 2 * f * γ / dGv := by
+  simp only [rcritProposal]
+
+/-- **Gibbs–Thomson at the critical radius**: the Gibbs–Thomson energy of a particle of the (unclamped)
+critical radius `2fγ/dG_vol`, `dG_vol = dG/Vm − E`, equals the chemical driving force. -/
+theorem gibbsThomson_at_Rcrit (dG Vm E f γ : α) (hVm : Vm ≠ 0) (hf : f ≠ 0) (hγ : γ ≠ 0)
+    (hd : volDG dG Vm E ≠ 0) :
+    dG - gExtra Vm E f γ (rcritProposal f γ (volDG dG Vm E)) = 0 := by
+  simp only [gExtra, rcritProposal, volDG] at *
+  have h2 : (2 : α) * f * γ ≠ 0 := by positivity
+  field_simp
+  ring
+
+/-- driving force minus Gibbs–Thomson energy, factored: `Vm/R · (dG_vol·R − 2fγ)` -/
+theorem dG_sub_gExtra (dG Vm E f γ R : α) (hVm : Vm ≠ 0) (hR : R ≠ 0) :
+    dG - gExtra Vm E f γ R = Vm / R * (volDG dG Vm E * R - 2 * f * γ) := by
+  simp only [gExtra, volDG]
+  field_simp
+  ring
+
+/-- the Gibbs–Thomson energy falls strictly with the radius -/
+theorem gExtra_strictAnti (Vm E f γ R₁ R₂ : α) (hVm : 0 < Vm) (hf : 0 < f) (hγ : 0 < γ)
+    (h1 : 0 < R₁) (h12 : R₁ < R₂) : gExtra Vm E f γ R₂ < gExtra Vm E f γ R₁ := by
+  simp only [gExtra]
+  have hc : 0 < 2 * f * γ := by positivity
+  have : 2 * f * γ / R₂ < 2 * f * γ / R₁ := div_lt_div_of_pos_left hc h1 h12
+  have := mul_lt_mul_of_pos_left (add_lt_add_left this E) hVm
+  simpa using this
+
+/-! ### multicomponent growth law: sign change exactly at the critical radius -/
+
+/-- the growth law applied to the traced Gibbs–Thomson term, factored with a positive coefficient -/
+theorem growthMulti_factored (mc R dG Vm E f γ : α) (hVm : Vm ≠ 0) (hR : R ≠ 0) :
+    growthMulti mc R dG (gExtra Vm E f γ R)
+      = mc * Vm / (R * R) * (volDG dG Vm E * R - 2 * f * γ) := by
+  simp only [growthMulti, dG_sub_gExtra dG Vm E f γ R hVm hR]
+  field_simp
+
+theorem crossing_pos_iff (f γ dGv R : α) (hd : 0 < dGv) :
+    0 < dGv * R - 2 * f * γ ↔ rcritProposal f γ dGv < R := by
+  rw [rcritProposal_closed, div_lt_iff₀ hd]
+  constructor <;> intro h <;> linarith
+
+theorem crossing_neg_iff (f γ dGv R : α) (hd : 0 < dGv) :
+    dGv * R - 2 * f * γ < 0 ↔ R < rcritProposal f γ dGv := by
+  rw [rcritProposal_closed, lt_div_iff₀ hd]
+  constructor <;> intro h <;> linarith
+
+theorem crossing_zero_iff (f γ dGv R : α) (hd : 0 < dGv) :
+    dGv * R - 2 * f * γ = 0 ↔ R = rcritProposal f γ dGv := by
+  rw [rcritProposal_closed, eq_div_iff hd.ne']
+  constructor <;> intro h <;> linarith
+
+/-- **multicomponent growth sign**: `growth(R) = (mc/R)(dG − gExtra(R))` is positive exactly for `R > Rcrit` … -/
+theorem growthMulti_pos_iff (mc R dG Vm E f γ : α) (hmc : 0 < mc) (hR : 0 < R) (hVm : 0 < Vm)
+    (hd : 0 < volDG dG Vm E) :
+    0 < growthMulti mc R dG (gExtra Vm E f γ R) ↔ rcritProposal f γ (volDG dG Vm E) < R := by
+  rw [growthMulti_factored mc R dG Vm E f γ hVm.ne' hR.ne',
+    pos_mul_pos_iff (by positivity), crossing_pos_iff f γ _ R hd]
+
+/-- … negative exactly for `R < Rcrit` … -/
+theorem growthMulti_neg_iff (mc R dG Vm E f γ : α) (hmc : 0 < mc) (hR : 0 < R) (hVm : 0 < Vm)
+    (hd : 0 < volDG dG Vm E) :
+    growthMulti mc R dG (gExtra Vm E f γ R) < 0 ↔ R < rcritProposal f γ (volDG dG Vm E) := by
+  rw [growthMulti_factored mc R dG Vm E f γ hVm.ne' hR.ne',
+    pos_mul_neg_iff (by positivity), crossing_neg_iff f γ _ R hd]
+
+/-- … and zero exactly at `Rcrit`. -/
+theorem growthMulti_zero_iff (mc R dG Vm E f γ : α) (hmc : 0 < mc) (hR : 0 < R) (hVm : 0 < Vm)
+    (hd : 0 < volDG dG Vm E) :
+    growthMulti mc R dG (gExtra Vm E f γ R) = 0 ↔ R = rcritProposal f γ (volDG dG Vm E) := by
+  rw [growthMulti_factored mc R dG Vm E f γ hVm.ne' hR.ne',
+    pos_mul_eq_zero_iff (by positivity), crossing_zero_iff f γ _ R hd]
+
+/-! ### what the KWN model computes (`_singleGrowthMulti`, traced through the real `particleGibbs` and growth law)
+
+`growthMultiKWN kf mc R dGv Vm E f γ` takes the RECORDED volumetric driving force `dGv = volDG dG Vm E`.
+Before the repair recorded in known_findings.txt the model handed `dGv·Vm` to the growth law although the
+Gibbs–Thomson term of `particleGibbs` contains the strain energy as well, so `E` was subtracted twice
+(`growthMultiKWN_before`); the regenerated definition now adds the strain energy back. -/
+
+/-- the regenerated KWN growth rate, factored; `kf` = kinetic shape factor -/
+theorem growthMultiKWN_factored (kf mc R dG Vm E f γ : α) (hVm : Vm ≠ 0) (hR : R ≠ 0) :
+    growthMultiKWN kf mc R (volDG dG Vm E) Vm E f γ
+      = kf * mc * Vm / (R * R) * (volDG dG Vm E * R - 2 * f * γ) := by
+  simp only [growthMultiKWN, volDG]
+  field_simp
+  ring
+
+/-- **growth sign in the KWN model, multicomponent**: with `mc > 0`, kinetic factor `> 0`, positive volumetric
+driving force: classes above the (unclamped) critical radius grow … -/
+theorem kwn_multi_pos_iff (kf mc R dG Vm E f γ : α) (hkf : 0 < kf) (hmc : 0 < mc) (hR : 0 < R) (hVm : 0 < Vm)
+    (hd : 0 < volDG dG Vm E) :
+    0 < growthMultiKWN kf mc R (volDG dG Vm E) Vm E f γ ↔ rcritProposal f γ (volDG dG Vm E) < R := by
+  rw [growthMultiKWN_factored kf mc R dG Vm E f γ hVm.ne' hR.ne',
+    pos_mul_pos_iff (by positivity), crossing_pos_iff f γ _ R hd]
+
+/-- … classes below shrink … -/
+theorem kwn_multi_neg_iff (kf mc R dG Vm E f γ : α) (hkf : 0 < kf) (hmc : 0 < mc) (hR : 0 < R) (hVm : 0 < Vm)
+    (hd : 0 < volDG dG Vm E) :
+    growthMultiKWN kf mc R (volDG dG Vm E) Vm E f γ < 0 ↔ R < rcritProposal f γ (volDG dG Vm E) := by
+  rw [growthMultiKWN_factored kf mc R dG Vm E f γ hVm.ne' hR.ne',
+    pos_mul_neg_iff (by positivity), crossing_neg_iff f γ _ R hd]
+
+/-- … and the growth rate vanishes exactly at the critical radius. -/
+theorem kwn_multi_zero_iff (kf mc R dG Vm E f γ : α) (hkf : 0 < kf) (hmc : 0 < mc) (hR : 0 < R) (hVm : 0 < Vm)
+    (hd : 0 < volDG dG Vm E) :
+    growthMultiKWN kf mc R (volDG dG Vm E) Vm E f γ = 0 ↔ R = rcritProposal f γ (volDG dG Vm E) := by
+  rw [growthMultiKWN_factored kf mc R dG Vm E f γ hVm.ne' hR.ne',
+    pos_mul_eq_zero_iff (by positivity), crossing_zero_iff f γ _ R hd]
+
+/-- **the kinetic shape factor does not change the sign**: the KWN growth rate is `kf` times the growth law
+evaluated with the chemical driving force -/
+theorem kwn_multi_eq_kf_mul (kf mc R dG Vm E f γ : α) (hVm : Vm ≠ 0) (hR : R ≠ 0) :
+    growthMultiKWN kf mc R (volDG dG Vm E) Vm E f γ = kf * growthMulti mc R dG (gExtra Vm E f γ R) := by
+  rw [growthMultiKWN_factored kf mc R dG Vm E f γ hVm hR, growthMulti_factored mc R dG Vm E f γ hVm hR]
+  ring
+
+theorem kineticFactor_keeps_sign (kf g : α) (hkf : 0 < kf) :
+    (0 < kf * g ↔ 0 < g) ∧ (kf * g < 0 ↔ g < 0) ∧ (kf * g = 0 ↔ g = 0) :=
+  ⟨pos_mul_pos_iff hkf, pos_mul_neg_iff hkf, pos_mul_eq_zero_iff hkf⟩
+
+/-- the formula `_singleGrowthMulti` evaluated BEFORE the repair (hand copy of the earlier trace):
+`dGv·Vm − gExtra`, i.e. the strain energy subtracted twice -/
+def growthMultiKWN_before (kf mc R dGv Vm E f γ : α) : α :=
+  kf * ((mc / R) * ((dGv * Vm) - (Vm * (E + ((((2 : α) * f) * γ) / R)))))
+
+/-- without strain energy the earlier formula agrees with the critical radius (this part of the claim held
+before the repair as well) -/
+theorem kwn_multi_pos_iff_partial (kf mc R dG Vm f γ : α) (hkf : 0 < kf) (hmc : 0 < mc) (hR : 0 < R) (hVm : 0 < Vm)
+    (hd : 0 < volDG dG Vm 0) :
+    0 < growthMultiKWN_before kf mc R (volDG dG Vm 0) Vm 0 f γ ↔ rcritProposal f γ (volDG dG Vm 0) < R := by
+  have : growthMultiKWN_before kf mc R (volDG dG Vm 0) Vm 0 f γ
+      = kf * mc * Vm / (R * R) * (volDG dG Vm 0 * R - 2 * f * γ) := by
+    simp only [growthMultiKWN_before, volDG]
+    have := hVm.ne'; have := hR.ne'
+    field_simp
+    ring
+  rw [this, pos_mul_pos_iff (by positivity), crossing_pos_iff f γ _ R hd]
+
+/-- the earlier formula changes sign at `2fγ/(dG_vol − E)`, not at `Rcrit = 2fγ/dG_vol` -/
+theorem kwn_before_zero_iff (kf mc R dGv Vm E f γ : α) (hkf : 0 < kf) (hmc : 0 < mc) (hR : 0 < R) (hVm : 0 < Vm)
+    (hd : 0 < dGv - E) :
+    growthMultiKWN_before kf mc R dGv Vm E f γ = 0 ↔ R = rcritProposal f γ (dGv - E) := by
+  have : growthMultiKWN_before kf mc R dGv Vm E f γ
+      = kf * mc * Vm / (R * R) * ((dGv - E) * R - 2 * f * γ) := by
+    simp only [growthMultiKWN_before]
+    have := hVm.ne'; have := hR.ne'
+    field_simp
+  rw [this, pos_mul_eq_zero_iff (by positivity), crossing_zero_iff f γ _ R hd]
+
+/-- **witness of the defect** (earlier formula): `Vm = f = γ = E = 1`, chemical driving force 3, so `dG_vol = 2`,
+`Rcrit = 1`; the class of radius 3/2 is larger than the critical radius and SHRINKS. -/
+theorem strain_counted_twice_before :
+    rcritProposal (1 : ℚ) 1 (volDG 3 1 1) < 3 / 2 ∧
+    growthMultiKWN_before (1 : ℚ) 1 (3 / 2) (volDG 3 1 1) 1 1 1 1 < 0 := by
+  simp only [rcritProposal, volDG, growthMultiKWN_before]
+  norm_num
+
+/-! ### the clamp `Rcrit = max(2fγ/dG_vol, Rmin)` made explicit -/
+
+theorem rcritUsed_unclamped (f γ dGv Rmin : α) (hd : 0 < dGv) (h : Rmin ≤ rcritProposal f γ dGv) :
+    rcritUsed f γ dGv Rmin = rcritProposal f γ dGv := by
+  simp [rcritUsed, hd, not_lt.mpr h]
+
+theorem rcritUsed_clamped (f γ dGv Rmin : α) (hd : 0 < dGv) (h : rcritProposal f γ dGv < Rmin) :
+    rcritUsed f γ dGv Rmin = Rmin := by
+  simp [rcritUsed, hd, h]
+
+theorem rcritUsed_no_driving_force (f γ dGv Rmin : α) (hd : dGv ≤ 0) : rcritUsed f γ dGv Rmin = 0 := by
+  simp [rcritUsed, not_lt.mpr hd]
+
+/-- the recorded critical radius is never below `Rmin` when the driving force is positive -/
+theorem rcritUsed_ge_Rmin (f γ dGv Rmin : α) (hd : 0 < dGv) : Rmin ≤ rcritUsed f γ dGv Rmin := by
+  by_cases h : rcritProposal f γ dGv < Rmin
+  · rw [rcritUsed_clamped f γ dGv Rmin hd h]
+  · rw [rcritUsed_unclamped f γ dGv Rmin hd (not_lt.mp h)]; exact not_lt.mp h
+
+/-- **unclamped case = the property's claim**: if the proposal is not below `Rmin`, growth changes sign exactly
+at the recorded critical radius -/
+theorem kwn_multi_sign_at_recorded_Rcrit (kf mc R dG Vm E f γ Rmin : α) (hkf : 0 < kf) (hmc : 0 < mc) (hR : 0 < R)
+    (hVm : 0 < Vm) (hd : 0 < volDG dG Vm E) (hun : Rmin ≤ rcritProposal f γ (volDG dG Vm E)) :
+    (0 < growthMultiKWN kf mc R (volDG dG Vm E) Vm E f γ ↔ rcritUsed f γ (volDG dG Vm E) Rmin < R) ∧
+    (growthMultiKWN kf mc R (volDG dG Vm E) Vm E f γ < 0 ↔ R < rcritUsed f γ (volDG dG Vm E) Rmin) := by
+  rw [rcritUsed_unclamped f γ _ Rmin hd hun]
+  exact ⟨kwn_multi_pos_iff kf mc R dG Vm E f γ hkf hmc hR hVm hd, kwn_multi_neg_iff kf mc R dG Vm E f γ hkf hmc hR hVm hd⟩
+
+/-- **clamp, explicit**: if the critical radius was raised to `Rmin`, the classes between `2fγ/dG_vol` and `Rmin`
+are BELOW the recorded critical radius and still grow (the property's claim concerns the unclamped case) -/
+theorem clamped_classes_between_grow (kf mc R dG Vm E f γ Rmin : α) (hkf : 0 < kf) (hmc : 0 < mc) (hR : 0 < R)
+    (hVm : 0 < Vm) (hd : 0 < volDG dG Vm E) (h1 : rcritProposal f γ (volDG dG Vm E) < R) (h2 : R < Rmin) :
+    R < rcritUsed f γ (volDG dG Vm E) Rmin ∧ 0 < growthMultiKWN kf mc R (volDG dG Vm E) Vm E f γ := by
+  rw [rcritUsed_clamped f γ _ Rmin hd (lt_trans h1 h2)]
+  exact ⟨h2, (kwn_multi_pos_iff kf mc R dG Vm E f γ hkf hmc hR hVm hd).mpr h1⟩
+
+/-- concrete witness of the clamped situation: `2fγ/dG_vol = 1`, `Rmin = 3`, the class of radius 2 grows although
+it is below the recorded critical radius 3 -/
+theorem clamp_witness :
+    rcritUsed (1 : ℚ) 1 (volDG 2 1 0) 3 = 3 ∧ (2 : ℚ) < rcritUsed (1 : ℚ) 1 (volDG 2 1 0) 3 ∧
+    0 < growthMultiKWN (1 : ℚ) 1 2 (volDG 2 1 0) 1 0 1 1 := by
+  refine ⟨?_, ?_, ?_⟩
+  · simp only [rcritUsed, rcritProposal, volDG]; norm_num
+  · simp only [rcritUsed, rcritProposal, volDG]; norm_num
+  · exact (clamped_classes_between_grow (1 : ℚ) 1 2 2 1 0 1 1 3 one_pos one_pos two_pos one_pos
+      (by simp only [volDG]; norm_num) (by simp only [rcritProposal, volDG]; norm_num) (by norm_num)).2
+
+/-! ### binary growth law: sign of the supersaturation -/
+
+theorem growthBinary_factored (kf D eff x xa xb Va Vb R : α) (hden : Va * xb / Vb - xa ≠ 0) (heff : eff ≠ 0)
+    (hR : R ≠ 0) :
+    growthBinary kf D eff x xa xb Va Vb R = kf * D / ((Va * xb / Vb - xa) * (eff * R)) * (x - xa) := by
+  simp only [growthBinary]
+  field_simp
+
+/-- **binary growth sign**: with `Vα·xβ/Vβ − xα > 0`, `D > 0`, `eff > 0`, kinetic factor `> 0`:
+`sign(growth_i) = sign(x − xα_i)` -/
+theorem growthBinary_pos_iff (kf D eff x xa xb Va Vb R : α) (hkf : 0 < kf) (hD : 0 < D) (heff : 0 < eff)
+    (hR : 0 < R) (hden : 0 < Va * xb / Vb - xa) :
+    0 < growthBinary kf D eff x xa xb Va Vb R ↔ xa < x := by
+  rw [growthBinary_factored kf D eff x xa xb Va Vb R hden.ne' heff.ne' hR.ne', pos_mul_pos_iff (by positivity)]
+  exact sub_pos
+
+theorem growthBinary_neg_iff (kf D eff x xa xb Va Vb R : α) (hkf : 0 < kf) (hD : 0 < D) (heff : 0 < eff)
+    (hR : 0 < R) (hden : 0 < Va * xb / Vb - xa) :
+    growthBinary kf D eff x xa xb Va Vb R < 0 ↔ x < xa := by
+  rw [growthBinary_factored kf D eff x xa xb Va Vb R hden.ne' heff.ne' hR.ne', pos_mul_neg_iff (by positivity)]
+  exact sub_neg
+
+theorem growthBinary_zero_iff (kf D eff x xa xb Va Vb R : α) (hkf : 0 < kf) (hD : 0 < D) (heff : 0 < eff)
+    (hR : 0 < R) (hden : 0 < Va * xb / Vb - xa) :
+    growthBinary kf D eff x xa xb Va Vb R = 0 ↔ x = xa := by
+  rw [growthBinary_factored kf D eff x xa xb Va Vb R hden.ne' heff.ne' hR.ne', pos_mul_eq_zero_iff (by positivity)]
+  exact sub_eq_zero
+
+/-- the traced supersaturation has the sign of `x − xα` under the same denominator condition -/
+theorem superSat_pos_iff (x xa xb Va Vb : α) (hden : 0 < Va * xb / Vb - xa) :
+    0 < superSat x xa xb Va Vb ↔ xa < x := by
+  simp only [superSat]
+  rw [div_pos_iff_of_pos_right hden]
+  exact sub_pos
+
+/-! ### binary, conditional on the thermodynamic backend
+
+`DF` = nucleation driving force as a function of the matrix composition, `xα` = interfacial matrix composition as
+a function of the Gibbs–Thomson energy, both at the current temperature.  The hypotheses are exactly the
+monitored clauses; `δ` is the documented offset (1 J/mol in the code, 0 for an exact backend). -/
+
+/-- if the composition returned for `g` is where the driving force equals `g + δ` and the driving force does not
+decrease with supersaturation, then a smaller Gibbs–Thomson energy than the driving force means an interfacial
+composition below the matrix composition -/
+theorem xalpha_lt_of_g_lt (DF xα : α → α) (δ : α) (hinv : ∀ g, DF (xα g) = g + δ)
+    (hmono : ∀ a b, a ≤ b → DF a ≤ DF b) (x g : α) (hg : g + δ < DF x) : xα g < x := by
+  by_contra h
+  have := hmono x (xα g) (not_lt.mp h)
+  rw [hinv g] at this
+  exact absurd hg (not_lt.mpr this)
+
+theorem xalpha_gt_of_g_gt (DF xα : α → α) (δ : α) (hinv : ∀ g, DF (xα g) = g + δ)
+    (hmono : ∀ a b, a ≤ b → DF a ≤ DF b) (x g : α) (hg : DF x < g + δ) : x < xα g := by
+  by_contra h
+  have := hmono (xα g) x (not_lt.mp h)
+  rw [hinv g] at this
+  exact absurd hg (not_lt.mpr this)
+
+/-- **binary, conditional, with the offset**: a class whose Gibbs–Thomson energy (plus offset) is below the driving
+force grows, one above it shrinks -/
+theorem binary_conditional_offset (DF xα : α → α) (δ : α) (hinv : ∀ g, DF (xα g) = g + δ)
+    (hmono : ∀ a b, a ≤ b → DF a ≤ DF b)
+    (kf D eff x xb Va Vb Vm E f γ R : α) (hkf : 0 < kf) (hD : 0 < D) (heff : 0 < eff) (hR : 0 < R)
+    (hden : 0 < Va * xb / Vb - xα (gExtra Vm E f γ R)) :
+    (gExtra Vm E f γ R + δ < DF x → 0 < growthBinary kf D eff x (xα (gExtra Vm E f γ R)) xb Va Vb R) ∧
+    (DF x < gExtra Vm E f γ R + δ → growthBinary kf D eff x (xα (gExtra Vm E f γ R)) xb Va Vb R < 0) :=
+  ⟨fun h => (growthBinary_pos_iff kf D eff x _ xb Va Vb R hkf hD heff hR hden).mpr
+      (xalpha_lt_of_g_lt DF xα δ hinv hmono x _ h),
+   fun h => (growthBinary_neg_iff kf D eff x _ xb Va Vb R hkf hD heff hR hden).mpr
+      (xalpha_gt_of_g_gt DF xα δ hinv hmono x _ h)⟩
+
+/-- the Gibbs–Thomson energy at the critical radius computed from `DF x` is `DF x` -/
+theorem gExtra_at_Rcrit (dG Vm E f γ : α) (hVm : Vm ≠ 0) (hf : f ≠ 0) (hγ : γ ≠ 0) (hd : volDG dG Vm E ≠ 0) :
+    gExtra Vm E f γ (rcritProposal f γ (volDG dG Vm E)) = dG := by
+  have := gibbsThomson_at_Rcrit dG Vm E f γ hVm hf hγ hd
+  linarith
+
+/-- **binary, conditional** (exact backend, `δ = 0`): IF `DF (xα g) = g` and `DF` is monotone THEN size classes
+above `Rcrit = 2fγ/(DF x / Vm − E)` grow … -/
+theorem binary_above_Rcrit_grows (DF xα : α → α) (hinv : ∀ g, DF (xα g) = g) (hmono : ∀ a b, a ≤ b → DF a ≤ DF b)
+    (kf D eff x xb Va Vb Vm E f γ R : α) (hkf : 0 < kf) (hD : 0 < D) (heff : 0 < eff)
+    (hVm : 0 < Vm) (hf : 0 < f) (hγ : 0 < γ) (hd : 0 < volDG (DF x) Vm E)
+    (hR : rcritProposal f γ (volDG (DF x) Vm E) < R)
+    (hden : 0 < Va * xb / Vb - xα (gExtra Vm E f γ R)) :
+    0 < growthBinary kf D eff x (xα (gExtra Vm E f γ R)) xb Va Vb R := by
+  have hRc : 0 < rcritProposal f γ (volDG (DF x) Vm E) := by
+    rw [rcritProposal_closed]; positivity
+  have hlt := gExtra_strictAnti Vm E f γ _ R hVm hf hγ hRc hR
+  rw [gExtra_at_Rcrit (DF x) Vm E f γ hVm.ne' hf.ne' hγ.ne' hd.ne'] at hlt
+  exact (binary_conditional_offset DF xα 0 (by simpa using hinv) hmono kf D eff x xb Va Vb Vm E f γ R hkf hD heff
+    (lt_trans hRc hR) hden).1 (by simpa using hlt)
+
+/-- … and size classes below `Rcrit` shrink. -/
+theorem binary_below_Rcrit_shrinks (DF xα : α → α) (hinv : ∀ g, DF (xα g) = g) (hmono : ∀ a b, a ≤ b → DF a ≤ DF b)
+    (kf D eff x xb Va Vb Vm E f γ R : α) (hkf : 0 < kf) (hD : 0 < D) (heff : 0 < eff)
+    (hVm : 0 < Vm) (hf : 0 < f) (hγ : 0 < γ) (hd : 0 < volDG (DF x) Vm E)
+    (hR0 : 0 < R) (hR : R < rcritProposal f γ (volDG (DF x) Vm E))
+    (hden : 0 < Va * xb / Vb - xα (gExtra Vm E f γ R)) :
+    growthBinary kf D eff x (xα (gExtra Vm E f γ R)) xb Va Vb R < 0 := by
+  have hlt := gExtra_strictAnti Vm E f γ R _ hVm hf hγ hR0 hR
+  rw [gExtra_at_Rcrit (DF x) Vm E f γ hVm.ne' hf.ne' hγ.ne' hd.ne'] at hlt
+  exact (binary_conditional_offset DF xα 0 (by simpa using hinv) hmono kf D eff x xb Va Vb Vm E f γ R hkf hD heff
+    hR0 hden).2 (by simpa using hlt)
+
+/-- the same conclusion from the other pair of hypotheses named in the property: `xα` strictly increasing in `g`
+and the matrix composition lies on the curve (`x = xα g⋆`, whence `DF x = g⋆`) -/
+theorem binary_above_Rcrit_grows' (DF xα : α → α) (hinv : ∀ g, DF (xα g) = g)
+    (hxmono : ∀ g₁ g₂, g₁ < g₂ → xα g₁ < xα g₂)
+    (kf D eff gs xb Va Vb Vm E f γ R : α) (hkf : 0 < kf) (hD : 0 < D) (heff : 0 < eff)
+    (hVm : 0 < Vm) (hf : 0 < f) (hγ : 0 < γ) (hd : 0 < volDG (DF (xα gs)) Vm E)
+    (hR : rcritProposal f γ (volDG (DF (xα gs)) Vm E) < R)
+    (hden : 0 < Va * xb / Vb - xα (gExtra Vm E f γ R)) :
+    0 < growthBinary kf D eff (xα gs) (xα (gExtra Vm E f γ R)) xb Va Vb R := by
+  have hRc : 0 < rcritProposal f γ (volDG (DF (xα gs)) Vm E) := by
+    rw [rcritProposal_closed]; positivity
+  have hlt := gExtra_strictAnti Vm E f γ _ R hVm hf hγ hRc hR
+  rw [gExtra_at_Rcrit (DF (xα gs)) Vm E f γ hVm.ne' hf.ne' hγ.ne' hd.ne', hinv gs] at hlt
+  exact (growthBinary_pos_iff kf D eff _ _ xb Va Vb R hkf hD heff (lt_trans hRc hR) hden).mpr (hxmono _ _ hlt)
+
+theorem binary_below_Rcrit_shrinks' (DF xα : α → α) (hinv : ∀ g, DF (xα g) = g)
+    (hxmono : ∀ g₁ g₂, g₁ < g₂ → xα g₁ < xα g₂)
+    (kf D eff gs xb Va Vb Vm E f γ R : α) (hkf : 0 < kf) (hD : 0 < D) (heff : 0 < eff)
+    (hVm : 0 < Vm) (hf : 0 < f) (hγ : 0 < γ) (hd : 0 < volDG (DF (xα gs)) Vm E)
+    (hR0 : 0 < R) (hR : R < rcritProposal f γ (volDG (DF (xα gs)) Vm E))
+    (hden : 0 < Va * xb / Vb - xα (gExtra Vm E f γ R)) :
+    growthBinary kf D eff (xα gs) (xα (gExtra Vm E f γ R)) xb Va Vb R < 0 := by
+  have hlt := gExtra_strictAnti Vm E f γ R _ hVm hf hγ hR0 hR
+  rw [gExtra_at_Rcrit (DF (xα gs)) Vm E f γ hVm.ne' hf.ne' hγ.ne' hd.ne', hinv gs] at hlt
+  exact (growthBinary_neg_iff kf D eff _ _ xb Va Vb R hkf hD heff hR0 hden).mpr (hxmono _ _ hlt)
+
+end field
+
+/-! ### the sentinel scan of `_interfacialCompositionFromEq` -/
+
+section scan
+variable {β : Type}
+
+theorem find?_congr_mem {γ : Type} {l : List γ} {p q : γ → Bool} (h : ∀ x ∈ l, p x = q x) :
+    l.find? p = l.find? q := by
+  induction l with
+  | nil => rfl
+  | cons a l ih =>
+    have ha := h a (List.mem_cons_self)
+    have hl : ∀ x ∈ l, p x = q x := fun x hx => h x (List.mem_cons_of_mem _ hx)
+    simp only [List.find?_cons, ha, ih hl]
+
+theorem step_skip (st : St β) (r : Rec β) (h : r.ge < st.gIndex) : step st r = st := by
+  obtain ⟨k, a, b⟩ := st
+  simp only at h
+  have h1 : ¬ k < r.ge := by omega
+  have h2 : r.ge ≠ k := by omega
+  simp [step, h1, h2]
+
+theorem step_single (st : St β) (r : Rec β) (h : st.gIndex ≤ r.ge) (h2 : r.two = false) :
+    step st r = { st with gIndex := r.ge } := by
+  obtain ⟨k, a, b⟩ := st
+  simp only at h
+  by_cases hk : k < r.ge
+  · simp [step, hk, h2]
+  · have : r.ge = k := by omega
+    simp [step, hk, h2, this]
+
+theorem step_two (st : St β) (r : Rec β) (h : st.gIndex ≤ r.ge) (h2 : r.two = true) :
+    step st r = ⟨r.ge + 1, upd st.xM r.ge r.xm, upd st.xP r.ge r.xp⟩ := by
+  obtain ⟨k, a, b⟩ := st
+  simp only at h
+  by_cases hk : k < r.ge
+  · simp [step, hk, h2]
+  · have : r.ge = k := by omega
+    simp [step, hk, h2, this]
+
+/-- which record decides entry `g` when the loop is entered with `gIndex = k` -/
+def sel (k g : Nat) (r : Rec β) : Bool := r.two && decide (r.ge = g) && decide (k ≤ r.ge)
+
+/-- records ordered by GE index (pycalphad enumerates the condition grid in C order, GE slowest) -/
+def Ordered (rs : List (Rec β)) : Prop := rs.Pairwise (fun a b => a.ge ≤ b.ge)
+
+theorem foldl_step_xM (rs : List (Rec β)) (st : St β) (hs : Ordered rs) (g : Nat) :
+    (rs.foldl step st).xM g =
+      match rs.find? (sel st.gIndex g) with
+      | some r => r.xm
+      | none => st.xM g := by
+  induction rs generalizing st with
+  | nil => simp
+  | cons r rs ih =>
+    obtain ⟨hr, hs'⟩ := List.pairwise_cons.mp hs
+    simp only [List.foldl_cons]
+    by_cases hlt : r.ge < st.gIndex
+    · rw [step_skip st r hlt, ih st hs']
+      have : sel st.gIndex g r = false := by
+        have : ¬ st.gIndex ≤ r.ge := by omega
+        simp [sel, this]
+      simp [List.find?_cons, this]
+    · have hle : st.gIndex ≤ r.ge := by omega
+      cases h2 : r.two with
+      | false =>
+        rw [step_single st r hle h2, ih _ hs']
+        have hself : sel st.gIndex g r = false := by simp [sel, h2]
+        have hc : rs.find? (sel r.ge g) = rs.find? (sel st.gIndex g) := by
+          apply find?_congr_mem
+          intro x hx
+          have := hr x hx
+          have h1 : r.ge ≤ x.ge := this
+          have h3 : st.gIndex ≤ x.ge := by omega
+          simp [sel, h1, h3]
+        simp [List.find?_cons, hself, hc]
+      | true =>
+        rw [step_two st r hle h2, ih _ hs']
+        by_cases hg : r.ge = g
+        · have hself : sel st.gIndex g r = true := by simp [sel, h2, hg, ← hg, hle]
+          have hn : rs.find? (sel (r.ge + 1) g) = none := by
+            rw [List.find?_eq_none]
+            intro x hx
+            have h1 : r.ge ≤ x.ge := hr x hx
+            simp only [sel, Bool.and_eq_true, decide_eq_true_eq, not_and]
+            intro ⟨_, h4⟩ h5
+            omega
+          simp [List.find?_cons, hself, hn, upd, hg]
+        · have hself : sel st.gIndex g r = false := by simp [sel, hg]
+          have hc : rs.find? (sel (r.ge + 1) g) = rs.find? (sel st.gIndex g) := by
+            apply find?_congr_mem
+            intro x hx
+            have h1 : r.ge ≤ x.ge := hr x hx
+            by_cases hx2 : x.ge = g
+            · have h3 : r.ge + 1 ≤ x.ge := by omega
+              have h4 : st.gIndex ≤ x.ge := by omega
+              simp [sel, h3, h4]
+            · simp [sel, hx2]
+          have hu : upd st.xM r.ge r.xm g = st.xM g := by
+            have : g ≠ r.ge := fun h => hg h.symm
+            simp [upd, this]
+          simp [List.find?_cons, hself, hc, hu]
+
+theorem foldl_step_xP (rs : List (Rec β)) (st : St β) (hs : Ordered rs) (g : Nat) :
+    (rs.foldl step st).xP g =
+      match rs.find? (sel st.gIndex g) with
+      | some r => r.xp
+      | none => st.xP g := by
+  induction rs generalizing st with
+  | nil => simp
+  | cons r rs ih =>
+    obtain ⟨hr, hs'⟩ := List.pairwise_cons.mp hs
+    simp only [List.foldl_cons]
+    by_cases hlt : r.ge < st.gIndex
+    · rw [step_skip st r hlt, ih st hs']
+      have : sel st.gIndex g r = false := by
+        have : ¬ st.gIndex ≤ r.ge := by omega
+        simp [sel, this]
+      simp [List.find?_cons, this]
+    · have hle : st.gIndex ≤ r.ge := by omega
+      cases h2 : r.two with
+      | false =>
+        rw [step_single st r hle h2, ih _ hs']
+        have hself : sel st.gIndex g r = false := by simp [sel, h2]
+        have hc : rs.find? (sel r.ge g) = rs.find? (sel st.gIndex g) := by
+          apply find?_congr_mem
+          intro x hx
+          have h1 : r.ge ≤ x.ge := hr x hx
+          have h3 : st.gIndex ≤ x.ge := by omega
+          simp [sel, h1, h3]
+        simp [List.find?_cons, hself, hc]
+      | true =>
+        rw [step_two st r hle h2, ih _ hs']
+        by_cases hg : r.ge = g
+        · have hself : sel st.gIndex g r = true := by simp [sel, h2, hg, ← hg, hle]
+          have hn : rs.find? (sel (r.ge + 1) g) = none := by
+            rw [List.find?_eq_none]
+            intro x hx
+            have h1 : r.ge ≤ x.ge := hr x hx
+            simp only [sel, Bool.and_eq_true, decide_eq_true_eq, not_and]
+            intro ⟨_, h4⟩ h5
+            omega
+          simp [List.find?_cons, hself, hn, upd, hg]
+        · have hself : sel st.gIndex g r = false := by simp [sel, hg]
+          have hc : rs.find? (sel (r.ge + 1) g) = rs.find? (sel st.gIndex g) := by
+            apply find?_congr_mem
+            intro x hx
+            have h1 : r.ge ≤ x.ge := hr x hx
+            by_cases hx2 : x.ge = g
+            · have h3 : r.ge + 1 ≤ x.ge := by omega
+              have h4 : st.gIndex ≤ x.ge := by omega
+              simp [sel, h3, h4]
+            · simp [sel, hx2]
+          have hu : upd st.xP r.ge r.xp g = st.xP g := by
+            have : g ≠ r.ge := fun h => hg h.symm
+            simp [upd, this]
+          simp [List.find?_cons, hself, hc, hu]
+
+/-- the first two-phase record at GE index `g` -/
+def firstTwo (rs : List (Rec β)) (g : Nat) : Option (Rec β) :=
+  rs.find? (fun r => r.two && decide (r.ge = g))
+
+theorem sel_zero (g : Nat) : (sel 0 g : Rec β → Bool) = fun r => r.two && decide (r.ge = g) := by
+  funext r; simp [sel]
+
+/-- **sentinel scan, value**: for records ordered by GE index, entry `g` of the matrix array is the composition of
+the FIRST two-phase record at GE index `g`, and the sentinel if there is none -/
+theorem scan_xM (sent : β) (rs : List (Rec β)) (hs : Ordered rs) (g : Nat) :
+    (scan sent rs).xM g = match firstTwo rs g with | some r => r.xm | none => sent := by
+  have := foldl_step_xM rs (init sent) hs g
+  simp only [init, sel_zero] at this
+  simpa [scan, firstTwo, init] using this
+
+theorem scan_xP (sent : β) (rs : List (Rec β)) (hs : Ordered rs) (g : Nat) :
+    (scan sent rs).xP g = match firstTwo rs g with | some r => r.xp | none => sent := by
+  have := foldl_step_xP rs (init sent) hs g
+  simp only [init, sel_zero] at this
+  simpa [scan, firstTwo, init] using this
+
+/-- `hasTwo rs g`: some record at GE index `g` is a matrix + precipitate two-phase equilibrium -/
+def hasTwo (rs : List (Rec β)) (g : Nat) : Prop := ∃ r ∈ rs, r.two = true ∧ r.ge = g
+
+theorem firstTwo_none_iff (rs : List (Rec β)) (g : Nat) : firstTwo rs g = none ↔ ¬ hasTwo rs g := by
+  unfold firstTwo hasTwo
+  rw [List.find?_eq_none]
+  constructor
+  · intro h ⟨r, hr, h1, h2⟩
+    exact h r hr (by simp [h1, h2])
+  · intro h r hr hp
+    simp only [Bool.and_eq_true, decide_eq_true_eq] at hp
+    exact h ⟨r, hr, hp.1, hp.2⟩
+
+theorem firstTwo_some (rs : List (Rec β)) (g : Nat) (r : Rec β) (h : firstTwo rs g = some r) :
+    r ∈ rs ∧ r.two = true ∧ r.ge = g := by
+  unfold firstTwo at h
+  have h1 := List.mem_of_find?_eq_some h
+  have h2 := List.find?_some h
+  simp only [Bool.and_eq_true, decide_eq_true_eq] at h2
+  exact ⟨h1, h2.1, h2.2⟩
+
+/-- **sentinel scan, iff**: entry `g` is the sentinel iff no two-phase record exists at GE index `g`
+(compositions of real records are never the sentinel: they lie in [0, 1], the sentinel is −1) -/
+theorem scan_sentinel_iff (sent : β) (rs : List (Rec β)) (hs : Ordered rs)
+    (hne : ∀ r ∈ rs, r.two = true → r.xm ≠ sent) (g : Nat) :
+    (scan sent rs).xM g = sent ↔ ¬ hasTwo rs g := by
+  rw [scan_xM sent rs hs g, ← firstTwo_none_iff]
+  cases h : firstTwo rs g with
+  | none => simp
+  | some r =>
+    obtain ⟨hr, h2, _⟩ := firstTwo_some rs g r h
+    simp [hne r hr h2]
+
+/-- the precipitate array carries the sentinel at exactly the same indices -/
+theorem scan_sentinel_iff_xP (sent : β) (rs : List (Rec β)) (hs : Ordered rs)
+    (hne : ∀ r ∈ rs, r.two = true → r.xp ≠ sent) (g : Nat) :
+    (scan sent rs).xP g = sent ↔ ¬ hasTwo rs g := by
+  rw [scan_xP sent rs hs g, ← firstTwo_none_iff]
+  cases h : firstTwo rs g with
+  | none => simp
+  | some r =>
+    obtain ⟨hr, h2, _⟩ := firstTwo_some rs g r h
+    simp [hne r hr h2]
+
+/-- **monotone instability is preserved by the scan**: if the backend's two-phase records are monotone along the
+array (a two-phase record at index g implies one at every later index — later index = larger radius = smaller
+Gibbs–Thomson energy in `_createLookupBinary`), the sentinel pattern of the result is monotone in the same sense:
+once reported unstable at an index, reported unstable at every earlier index (every larger g) -/
+theorem scan_preserves_monotone (sent : β) (rs : List (Rec β)) (hs : Ordered rs)
+    (hne : ∀ r ∈ rs, r.two = true → r.xm ≠ sent)
+    (hmono : ∀ g g', g ≤ g' → hasTwo rs g → hasTwo rs g') (g g' : Nat) (hgg : g ≤ g')
+    (hun : (scan sent rs).xM g' = sent) : (scan sent rs).xM g = sent := by
+  rw [scan_sentinel_iff sent rs hs hne] at hun ⊢
+  exact fun h => hun (hmono g g' hgg h)
+
+/-- the ordering hypothesis is needed: with the records of GE index 1 arriving before those of GE index 0 the loop
+skips a two-phase record (entry 0 stays at the sentinel although a two-phase equilibrium exists there) -/
+theorem unordered_records_lose_entry :
+    let rs : List (Rec Int) := [⟨1, true, 5, 7⟩, ⟨0, true, 4, 6⟩]
+    (scan (-1) rs).xM 0 = -1 ∧ hasTwo rs 0 := by
+  refine ⟨by decide, ⟨⟨0, true, 4, 6⟩, by simp, rfl, rfl⟩⟩
+
+end scan
+
+/-! ### `RdrivingForceIndex` and the prefix fill of `_createLookupBinary` -/
+
+section rdfi
+variable {α : Type} [LinearOrder α]
+
+theorem isSent_iff (sent x : α) : isSent sent x = true ↔ x = sent := by
+  unfold isSent
+  simp only [Bool.not_eq_true', Bool.or_eq_false_iff, decide_eq_false_iff_not, not_lt]
+  exact ⟨fun ⟨h1, h2⟩ => le_antisymm h2 h1, fun h => ⟨h.ge, h.le⟩⟩
+
+theorem firstTrue_spec (p : Nat → Bool) (len i : Nat) (hi : i < len) (hp : p i = true)
+    (hmin : ∀ j, j < i → p j = false) : firstTrue p len = i := by
+  unfold firstTrue
+  have : (List.range len).find? (fun i => p i) = some i := by
+    rw [List.find?_eq_some_iff_getElem]
+    refine ⟨hp, i, by simpa using hi, by simp, ?_⟩
+    intro j hj
+    simp only [List.getElem_range]
+    simp [hmin j hj]
+  rw [this]
+
+theorem firstTrue_none (p : Nat → Bool) (len : Nat) (h : ∀ j, j < len → p j = false) :
+    firstTrue p len = 0 := by
+  unfold firstTrue
+  have : (List.range len).find? (fun i => p i) = none := by
+    rw [List.find?_eq_none]; intro x hx; simpa using h x (by simpa using hx)
+  rw [this]
+
+theorem firstTrue_lt (p : Nat → Bool) (len : Nat) (h : 0 < len) : firstTrue p len < len := by
+  unfold firstTrue
+  cases hf : (List.range len).find? (fun i => p i) with
+  | none => exact h
+  | some i =>
+    have := List.mem_of_find?_eq_some hf
+    simpa using this
+
+/-- **RdrivingForceIndex = last index of the unstable prefix**: entries `0..k−1` carry the sentinel, entry `k` does
+not (`1 ≤ k < n`): the index is `k − 1` -/
+theorem rdfi_prefix (n k : Nat) (sent : α) (xa : Nat → α) (hk1 : 1 ≤ k) (hkn : k < n)
+    (hun : ∀ i, i < k → xa i = sent) (hst : xa k ≠ sent) : rdfi n sent xa = k - 1 := by
+  unfold rdfi
+  rw [firstTrue_spec _ n k hkn]
+  · have : isSent sent (xa k) = false := by
+      rw [Bool.eq_false_iff]; intro h; exact hst ((isSent_iff sent _).mp h)
+    simp [this]
+  · intro j hj
+    simp [(isSent_iff sent (xa j)).mpr (hun j hj)]
+
+/-- no unstable class at all: the index is clamped to 0 (the first class is nevertheless emptied by
+`PSD[:RdrivingForceIndex+1] = 0`; an observation, not part of the property) -/
+theorem rdfi_no_unstable (n : Nat) (sent : α) (xa : Nat → α) (hn : 0 < n) (h0 : xa 0 ≠ sent) :
+    rdfi n sent xa = 0 := by
+  unfold rdfi
+  rw [firstTrue_spec _ n 0 hn]
+  · have : isSent sent (xa 0) = false := by
+      rw [Bool.eq_false_iff]; intro h; exact h0 ((isSent_iff sent _).mp h)
+    simp [this]
+  · intro j hj; omega
+
+/-- EVERY class unstable: `np.argmax` of an all-False array is 0, so the index is 0 and NOT `n − 1` -/
+theorem rdfi_all_unstable (n : Nat) (sent : α) (xa : Nat → α) (h : ∀ i, i < n → xa i = sent) :
+    rdfi n sent xa = 0 := by
+  unfold rdfi
+  rw [firstTrue_none]
+  intro j hj
+  simp [(isSent_iff sent (xa j)).mpr (h j hj)]
+
+/-- consequently `RdrivingForceIndex + 1 < n` always (n ≥ 2): the branch of `_createLookupBinary` and
+`_singleGrowthBinary` meant for "no size class is stable" is unreachable -/
+theorem rdfi_succ_lt (n : Nat) (sent : α) (xa : Nat → α) (hn : 2 ≤ n) : rdfi n sent xa + 1 < n := by
+  unfold rdfi
+  have := firstTrue_lt (fun i => !isSent sent (xa i)) n (by omega)
+  omega
+
+/-- after the prefix fill no sentinel is left when the instability pattern is a proper prefix: the unstable
+classes get the composition of the first stable class -/
+theorem fill_removes_sentinel (n k : Nat) (sent zero : α) (xa : Nat → α) (hk1 : 1 ≤ k) (hkn : k < n)
+    (hun : ∀ i, i < k → xa i = sent) (hst : ∀ i, k ≤ i → i < n → xa i ≠ sent) (i : Nat) (hi : i < n) :
+    fillPrefix n zero (rdfi n sent xa) xa i ≠ sent ∧
+    (i < k → fillPrefix n zero (rdfi n sent xa) xa i = xa k) := by
+  rw [rdfi_prefix n k sent xa hk1 hkn hun (hst k (le_refl k) hkn)]
+  have hk : k - 1 + 1 = k := by omega
+  unfold fillPrefix
+  simp only [hk, hkn, if_true]
+  by_cases hik : i < k
+  · simp only [hik, if_true]
+    exact ⟨hst k (le_refl k) hkn, fun _ => rfl⟩
+  · simp only [hik, if_false]
+    exact ⟨hst i (by omega) hi, fun h => absurd h hik⟩
+
+/-- with every class unstable the table keeps the sentinel in every entry (it is not zeroed) -/
+theorem fill_all_unstable_keeps_sentinel (n : Nat) (sent zero : α) (xa : Nat → α) (hn : 2 ≤ n)
+    (h : ∀ i, i < n → xa i = sent) (i : Nat) (hi : i < n) :
+    fillPrefix n zero (rdfi n sent xa) xa i = sent := by
+  rw [rdfi_all_unstable n sent xa h]
+  unfold fillPrefix
+  have h1 : 0 + 1 < n := by omega
+  simp only [h1, if_true]
+  by_cases h0 : i < 0 + 1
+  · simp only [h0, if_true]; exact h 1 (by omega)
+  · simp only [h0, if_false]; exact h i hi
+
+/-- **scan + index**: records ordered by GE index, real compositions ≠ sentinel, two-phase records exactly at the
+indices `k..n−1` (monotone instability, `1 ≤ k < n`): `RdrivingForceIndex` computed from the scanned array is the
+last index of the unstable prefix -/
+theorem scan_rdfi_prefix (n k : Nat) (sent : α) (rs : List (Rec α)) (hs : Ordered rs)
+    (hne : ∀ r ∈ rs, r.two = true → r.xm ≠ sent) (hk1 : 1 ≤ k) (hkn : k < n)
+    (hpat : ∀ g, g < n → (hasTwo rs g ↔ k ≤ g)) :
+    rdfi n sent (scan sent rs).xM = k - 1 := by
+  apply rdfi_prefix n k sent _ hk1 hkn
+  · intro i hi
+    rw [scan_sentinel_iff sent rs hs hne, hpat i (by omega)]
+    omega
+  · intro h
+    rw [scan_sentinel_iff sent rs hs hne, hpat k hkn] at h
+    exact h (le_refl k)
+
+end rdfi
+
+/-! ### non-vacuity: the hypothesis sets are satisfiable -/
+
+section nonvacuity
+
+/-- Gibbs–Thomson at the critical radius with strain energy and a non-spherical factor: Vm = 2, E = 1, f = 3,
+γ = 1/2, dG = 10 ⇒ dG_vol = 4, Rcrit = 3/4, gExtra(Rcrit) = 2·(1 + 3/(3/4)) = 10 -/
+example : gExtra (2 : ℚ) 1 3 (1 / 2) (rcritProposal 3 (1 / 2) (volDG 10 2 1)) = 10 := by
+  simp only [gExtra, rcritProposal, volDG]; norm_num
+
+example : (0 : ℚ) < volDG 10 2 1 := by simp only [volDG]; norm_num
+
+/-- multicomponent sign hypotheses are satisfiable and both sides of the critical radius occur -/
+example : 0 < growthMultiKWN (1 : ℚ) 1 1 (volDG 10 2 1) 2 1 3 (1 / 2)
+    ∧ growthMultiKWN (1 : ℚ) 1 (1 / 2) (volDG 10 2 1) 2 1 3 (1 / 2) < 0
+    ∧ growthMultiKWN (1 : ℚ) 1 (3 / 4) (volDG 10 2 1) 2 1 3 (1 / 2) = 0 := by
+  simp only [growthMultiKWN, volDG]; norm_num
+
+/-- binary sign hypotheses: Vα = Vβ, xβ = 1/4, xα = 1/100: denominator positive -/
+example : (0 : ℚ) < 1 * (1 / 4) / 1 - 1 / 100 := by norm_num
+
+/-- the conditional hypotheses are satisfiable: `xα g = g`, `DF x = x + δ` (ideal backend with offset δ = 1) -/
+example : (∀ g : ℚ, (fun x => x + 1) ((fun g => g) g) = g + 1) ∧
+    (∀ a b : ℚ, a ≤ b → (fun x => x + 1) a ≤ (fun x => x + 1) b) ∧
+    (∀ g₁ g₂ : ℚ, g₁ < g₂ → (fun g => g) g₁ < (fun g => g) g₂) := by
+  refine ⟨fun g => rfl, fun a b h => by simpa using h, fun _ _ h => h⟩
+
+/-- an ordered record list with the prefix pattern (two-phase records exactly at GE indices 1 and 2 of 3) -/
+example :
+    let rs : List (Rec Int) := [⟨0, false, 0, 0⟩, ⟨0, false, 0, 0⟩, ⟨1, false, 0, 0⟩, ⟨1, true, 4, 6⟩, ⟨1, true, 9, 9⟩, ⟨2, true, 3, 6⟩]
+    Ordered rs ∧ (List.range 3).map (scan (-1) rs).xM = [-1, 4, 3] ∧ rdfi 3 (-1) (scan (-1) rs).xM = 0 := by
+  refine ⟨by simp [Ordered], by decide, by decide⟩
+
+end nonvacuity
+
 end KawinV.Props.C12
